@@ -76,7 +76,7 @@ type SessFamily struct {
 }
 
 var sessFamilies = map[string]SessFamily{
-	"empty":       {"empty", "MC_SessEmpty", []string{"C03", "C04", "C07", "C20"}, false},
+	"empty":       {"empty", "MC_SessEmpty", []string{"C02", "C03", "C04", "C07", "C20"}, false},
 	"reset":       {"reset", "MC_SessReset", []string{"C05", "C07"}, false},
 	"echo":        {"echo", "MC_SessEcho", []string{"C08"}, false},
 	"refresh":     {"refresh", "MC_SessRefresh", []string{"C09"}, false},
@@ -96,7 +96,7 @@ var sessFamilies = map[string]SessFamily{
 	"custombad":   {"custombad", "MC_CustomBad", []string{"C17"}, false},
 	"custombadto": {"custombadto", "MC_CustomBadTo", []string{"C17"}, false},
 	// the same scripts over seeded random descriptors (VERIF_SEED)
-	"rnd-empty":   {"rnd-empty", "MC_RndEmpty", []string{"C03", "C04", "C07", "C20"}, true},
+	"rnd-empty":   {"rnd-empty", "MC_RndEmpty", []string{"C02", "C03", "C04", "C07", "C20"}, true},
 	"rnd-reset":   {"rnd-reset", "MC_RndReset", []string{"C05", "C07"}, true},
 	"rnd-echo":    {"rnd-echo", "MC_RndEcho", []string{"C08"}, true},
 	"rnd-refresh": {"rnd-refresh", "MC_RndRefresh", []string{"C09"}, true},
